@@ -185,7 +185,7 @@ pub fn check(rep: &Report) {
     rep.assume("the MIC is located as the 16 bytes between the fixed header implied by the flags and the first payload byte (the client omits the Version field when the flag is off)");
     rep.assume("without NTLMSSP_NEGOTIATE_UNICODE only ASCII identities are generated (OEM code page undefined)");
     rep.assume("the trailing Z(4) of the NTLMv2 client challenge is optional");
-    rep.random("tokens", rep.tier.n(40_000, 2_000_000), 200, decode, run);
+    rep.random("tokens", rep.tier.n(300_000, 6_000_000), 200, decode, run);
     rep.require("tokens", "from-hash", 2000);
     rep.require("tokens", "version-flag", 2000);
     rep.require("tokens", "non-ascii", 2000);
